@@ -255,7 +255,6 @@ func (vc *VC) callFunc(st *State, call *ast.CallExpr, callee *types.Func, sig *t
 	// 5. unknown: havoc everything
 	vc.uncontracted[full] = true
 	vc.havocAllHeap(st)
-	vc.havocAlloc(st)
 	return vc.havocResults(st, origin.Name(), sig)
 }
 
@@ -315,7 +314,6 @@ func (vc *VC) callValue(st *State, call *ast.CallExpr, fv *Value, sig *types.Sig
 	}
 	vc.uncontracted["call of unknown function value at "+vc.w.pos(call.Pos())] = true
 	vc.havocAllHeap(st)
-	vc.havocAlloc(st)
 	return vc.havocResults(st, "fnval", sig)
 }
 
@@ -774,21 +772,21 @@ func bigLE(a, b string) bool {
 func (vc *VC) bytesToString(st *State, v *Value, to types.Type) *Value {
 	elemT := types.Typ[types.Uint8]
 	h := vc.heapGet(st, elemCompPrefix(elemT), sortAt("Int", 2))
-	vc.declareFun("bytes2str", "((Array Int Int) Int Int) Int")
-	vc.addAxiom("(forall ((a (Array Int Int)) (o Int) (n Int)) (! (=> (>= n 0) (= (strlen (bytes2str a o n)) n)) :pattern ((bytes2str a o n))))")
-	vc.addAxiom("(forall ((a (Array Int Int)) (o Int) (n Int) (i Int)) (! (=> (and (<= 0 i) (< i n)) (= (strat (bytes2str a o n) i) (select a (+ o i)))) :pattern ((strat (bytes2str a o n) i))))")
-	vc.addAxiom("(forall ((a (Array Int Int)) (o Int)) (! (= (bytes2str a o 0) 0) :pattern ((bytes2str a o 0))))")
-	return intV(app("bytes2str", sel(h, v.Arr), v.Off, v.Len), to)
+	vc.declareFun("bytes2str", "((Array Int Int) Int Int Int) Int")
+	vc.addAxiomKeyed([]string{"bytes2str"}, "(forall ((h (Array Int Int)) (a Int) (o Int) (n Int)) (! (=> (>= n 0) (= (strlen (bytes2str h a o n)) n)) :pattern ((bytes2str h a o n))))")
+	vc.addAxiomKeyed([]string{"bytes2str"}, "(forall ((h (Array Int Int)) (a Int) (o Int) (n Int) (i Int)) (! (=> (and (<= 0 i) (< i n)) (= (strat (bytes2str h a o n) i) (select h (pr a (+ o i))))) :pattern ((strat (bytes2str h a o n) i))))")
+	vc.addAxiomKeyed([]string{"bytes2str"}, "(forall ((h (Array Int Int)) (a Int) (o Int)) (! (= (bytes2str h a o 0) 0) :pattern ((bytes2str h a o 0))))")
+	return intV(app("bytes2str", h, v.Arr, v.Off, v.Len), to)
 }
 
 func (vc *VC) stringToBytes(st *State, v *Value, to types.Type) *Value {
 	elemT := under(to).(*types.Slice).Elem()
 	comp := elemCompPrefix(elemT)
-	h := vc.heapGet(st, comp, sortAt("Int", 2))
 	arr := vc.allocArr(st, "str2bytes")
-	content := vc.fresh("bytes", "(Array Int Int)")
-	st.assume("(forall ((i Int)) (! (=> (and (<= 0 i) (< i (strlen " + v.Term + "))) (= (select " + content + " i) (strat " + v.Term + " i))) :pattern ((select " + content + " i))))")
-	vc.heapUpdate(st, comp, sortAt("Int", 2), sto(h, arr, content))
+	str := v.Term
+	vc.rowUpdate(st, comp, sortAt("Int", 2), arr, func(i, nc, oc string) string {
+		return smtImp(smtAnd(app("<=", "0", i), app("<", i, app("strlen", str))), smtEq(nc, app("strat", str, i)))
+	})
 	n := app("strlen", v.Term)
 	return &Value{K: VSlice, T: to, Arr: arr, Off: "0", Len: n, Cap: n}
 }
@@ -810,11 +808,7 @@ func (vc *VC) evalBuiltin(st *State, call *ast.CallExpr, name string) []*Value {
 		}
 		if mt, ok := under(T).(*types.Map); ok {
 			_ = mt
-			vc.declareFun("maplen", "((Array Int Bool)) Int")
-			vc.addAxiom("(forall ((d (Array Int Bool))) (! (>= (maplen d) 0) :pattern ((maplen d))))")
-			vc.addAxiom("(= (maplen ((as const (Array Int Bool)) false)) 0)")
-			dom := vc.heapGet(st, mapCompPrefix(T)+".dom", "(Array Int (Array Int Bool))")
-			return one(intV(smtIte(smtEq(a.Term, "0"), "0", app("maplen", sel(dom, a.Term))), types.Typ[types.Int]))
+			return one(intV(vc.mapLen(st, T, a.Term), types.Typ[types.Int]))
 		}
 		r := vc.freshValue(st, name, types.Typ[types.Int])
 		st.assume(app("<=", "0", r.Term))
@@ -835,15 +829,14 @@ func (vc *VC) evalBuiltin(st *State, call *ast.CallExpr, name string) []*Value {
 			}
 			arr := vc.allocArr(st, "make")
 			s := &Value{K: VSlice, T: T, Arr: arr, Off: "0", Len: n.Term, Cap: capT}
-			leafComps(elemCompPrefix(u.Elem()), u.Elem(), 2, func(comp, sort string) {
-				h := vc.heapGet(st, comp, sort)
-				zero := "0"
-				inner := "(Array Int Int)"
-				if strings.HasSuffix(sort, "Bool))") {
-					zero = "false"
-					inner = "(Array Int Bool)"
-				}
-				vc.heapUpdate(st, comp, sort, sto(h, arr, "((as const "+inner+") "+zero+")"))
+			vc.leafComps(elemCompPrefix(u.Elem()), u.Elem(), 2, func(comp, sort string) {
+				isBool := strings.HasSuffix(sort, "Bool))")
+				vc.rowUpdate(st, comp, sort, arr, func(i, nc, oc string) string {
+					if isBool {
+						return smtNot(nc)
+					}
+					return smtEq(nc, "0")
+				})
 			})
 			return one(s)
 		case *types.Map:
@@ -852,8 +845,8 @@ func (vc *VC) evalBuiltin(st *State, call *ast.CallExpr, name string) []*Value {
 			}
 			m := vc.allocRef(st, "map")
 			mp := mapCompPrefix(T)
-			dom := vc.heapGet(st, mp+".dom", "(Array Int (Array Int Bool))")
-			vc.heapUpdate(st, mp+".dom", "(Array Int (Array Int Bool))", sto(dom, m, "((as const (Array Int Bool)) false)"))
+			vc.rowUpdate(st, mp+".dom", "(Array Int (Array Int Bool))", m, func(i, nc, oc string) string { return smtNot(nc) })
+			vc.mapLenZero(st, T, m)
 			return one(intV(m, T))
 		case *types.Chan:
 			for _, a := range call.Args[1:] {
@@ -935,32 +928,25 @@ func (vc *VC) evalAppend(st *State, call *ast.CallExpr) *Value {
 	st.assume(smtEq(ln, res.Len))
 	res.Len = ln
 	// elementwise contents per leaf component
-	ei := 0
-	leafComps(elemCompPrefix(u.Elem()), u.Elem(), 2, func(comp, sort string) {
-		h := vc.heapGet(st, comp, sort)
-		inner := "(Array Int Int)"
-		if strings.HasSuffix(sort, "Bool))") {
-			inner = "(Array Int Bool)"
+	vc.leafComps(elemCompPrefix(u.Elem()), u.Elem(), 2, func(comp, sort string) {
+		h0 := vc.heapGet(st, comp, sort)
+		// old backing array: positions at or beyond off+len may have been overwritten in place
+		if s.Arr != "0" {
+			lim := app("+", s.Off, s.Len)
+			vc.rowUpdate(st, comp, sort, s.Arr, func(i, nc, oc string) string {
+				return smtImp(app("<", i, lim), smtEq(nc, oc))
+			})
 		}
-		content := vc.fresh("appended", inner)
-		oldArr := sel(h, s.Arr)
-		st.assume(fmt.Sprintf("(forall ((i Int)) (! (=> (and (<= 0 i) (< i %s)) (= (select %s i) (select %s (+ %s i)))) :pattern ((select %s i))))",
-			s.Len, content, oldArr, s.Off, content))
-		if tail != nil {
-			tArr := sel(h, tail.Arr)
-			st.assume(fmt.Sprintf("(forall ((i Int)) (! (=> (and (<= 0 i) (< i %s)) (= (select %s (+ %s i)) (select %s (+ %s i)))) :pattern ((select %s (+ %s i)))))",
-				tail.Len, content, s.Len, tArr, tail.Off, content, s.Len))
-			// a second pattern keyed on the absolute index
-			st.assume(fmt.Sprintf("(forall ((k Int)) (! (=> (and (<= %s k) (< k %s)) (= (select %s k) (select %s (+ %s (- k %s))))) :pattern ((select %s k))))",
-				s.Len, res.Len, content, tArr, tail.Off, s.Len, content))
-		}
-		// old backing array: positions at or beyond off+len may have been overwritten
-		hav := vc.fresh("oldarr", inner)
-		st.assume(fmt.Sprintf("(forall ((i Int)) (! (=> (< i (+ %s %s)) (= (select %s i) (select %s i))) :pattern ((select %s i))))",
-			s.Off, s.Len, hav, oldArr, hav))
-		nh := sto(sto(h, s.Arr, hav), arr, content)
-		vc.heapUpdate(st, comp, sort, nh)
-		ei++
+		// new backing array: prefix copied from s, then the tail
+		srcS := func(i string) string { return sel2(h0, s.Arr, app("+", s.Off, i)) }
+		vc.rowUpdate(st, comp, sort, arr, func(i, nc, oc string) string {
+			f := smtImp(smtAnd(app("<=", "0", i), app("<", i, s.Len)), smtEq(nc, srcS(i)))
+			if tail != nil {
+				tsrc := sel2(h0, tail.Arr, app("+", tail.Off, app("-", i, s.Len)))
+				f = smtAnd(f, smtImp(smtAnd(app("<=", s.Len, i), app("<", i, res.Len)), smtEq(nc, tsrc)))
+			}
+			return f
+		})
 	})
 	// explicit elements
 	for j, e := range elems {
@@ -982,18 +968,12 @@ func (vc *VC) evalCopy(st *State, call *ast.CallExpr) *Value {
 	}
 	n := vc.fresh("ncopy", "Int")
 	st.assume(smtEq(n, smtIte(app("<=", dst.Len, src.Len), dst.Len, src.Len)))
-	leafComps(elemCompPrefix(dT.Elem()), dT.Elem(), 2, func(comp, sort string) {
-		h := vc.heapGet(st, comp, sort)
-		inner := "(Array Int Int)"
-		if strings.HasSuffix(sort, "Bool))") {
-			inner = "(Array Int Bool)"
-		}
-		nd := vc.fresh("copied", inner)
-		od := sel(h, dst.Arr)
-		sa := sel(h, src.Arr)
-		st.assume(fmt.Sprintf("(forall ((i Int)) (! (= (select %s i) (ite (and (<= %s i) (< i (+ %s %s))) (select %s (+ %s (- i %s))) (select %s i))) :pattern ((select %s i))))",
-			nd, dst.Off, dst.Off, n, sa, src.Off, dst.Off, od, nd))
-		vc.heapUpdate(st, comp, sort, sto(h, dst.Arr, nd))
+	vc.leafComps(elemCompPrefix(dT.Elem()), dT.Elem(), 2, func(comp, sort string) {
+		h0 := vc.heapGet(st, comp, sort)
+		vc.rowUpdate(st, comp, sort, dst.Arr, func(i, nc, oc string) string {
+			inRange := smtAnd(app("<=", dst.Off, i), app("<", i, app("+", dst.Off, n)))
+			return smtEq(nc, smtIte(inRange, sel2(h0, src.Arr, app("+", src.Off, app("-", i, dst.Off))), oc))
+		})
 	})
 	return intV(n, types.Typ[types.Int])
 }
